@@ -18,6 +18,8 @@ import (
 	"fmt"
 	"os"
 	"path/filepath"
+	"sync"
+	"sync/atomic"
 
 	"github.com/glowlabs-org/gca-backend/client"
 	"verifharness/core"
@@ -347,6 +349,65 @@ func historySuite(seed uint64, tier, outDir string) (*core.Result, error) {
 		return nil, err
 	}
 
+	// the report loop saves readings while the sync goroutine loads them (same client, same file handle):
+	// every save lands in its own slot and every load returns 0 or the stored reading -- the store has no
+	// shared cursor.  Oracle only.
+	{
+		res.Count("concurrent-save-load")
+		hp := filepath.Join(dir, client.HistoryFile)
+		os.WriteFile(hp, hdr(40), 0644)
+		c, err := client.VerifNewBareClient(dir, true)
+		if err == nil {
+			const n = 6000
+			val := func(t uint32) uint32 { return 100000 + 7*t }
+			var stop int32
+			var wrong int64
+			var first string
+			var mu sync.Mutex
+			var wg sync.WaitGroup
+			for g := 0; g < 2; g++ {
+				wg.Add(1)
+				go func(g int) {
+					defer wg.Done()
+					x := uint32(12345 + g)
+					for atomic.LoadInt32(&stop) == 0 {
+						x = x*1664525 + 1013904223
+						t := 40 + x%n
+						v, err := c.VerifLoadReading(t)
+						if err == nil && v != 0 && v != val(t) {
+							atomic.AddInt64(&wrong, 1)
+							mu.Lock()
+							if first == "" {
+								first = fmt.Sprintf("load of slot %d returned %d while slots are being saved (stored value %d)", t, v, val(t))
+							}
+							mu.Unlock()
+						}
+					}
+				}(g)
+			}
+			for t := uint32(40); t < 40+n; t++ {
+				c.VerifSaveReading(t, val(t))
+			}
+			atomic.StoreInt32(&stop, 1)
+			wg.Wait()
+			misplaced := 0
+			for t := uint32(40); t < 40+n; t++ {
+				if v, err := c.VerifLoadReading(t); err != nil || v != val(t) {
+					misplaced++
+					if first == "" {
+						first = fmt.Sprintf("slot %d holds %d after being saved as %d", t, v, val(t))
+					}
+				}
+			}
+			c.VerifClose()
+			res.Case(map[string]interface{}{"case": "concurrent-save-load", "slots": n, "wrong_loads": wrong, "misplaced": misplaced}, "concurrent-save-load", true)
+			if wrong > 0 || misplaced > 0 {
+				res.Fail(fmt.Sprintf("saves and loads running at the same time on one history store: %d of %d slots do not hold the reading saved for them, %d loads returned another slot's value (%s)", misplaced, n, wrong, first), "concurrent-save-load", map[string]interface{}{"slots": n})
+			}
+		}
+		os.Remove(hp)
+	}
+
 	// last addressable slot: a 4 GiB sparse file, oracle only (the model would need the whole byte list)
 	{
 		res.Count("last-addressable-slot")
@@ -466,7 +527,7 @@ func historySuite(seed uint64, tier, outDir string) (*core.Result, error) {
 	if err := flush(); err != nil {
 		return nil, err
 	}
-	res.Required = append(res.Required, "before-origin", "value-zero", "occupied", "beyond-eof", "short-header", "ragged-tail", "offset-wrap", "origin-top", "last-addressable-slot",
+	res.Required = append(res.Required, "concurrent-save-load", "before-origin", "value-zero", "occupied", "beyond-eof", "short-header", "ragged-tail", "offset-wrap", "origin-top", "last-addressable-slot",
 		"gen.near", "gen.before-origin", "gen.beyond-eof", "gen.wrap-range")
 	res.Rule = "history files (origin from a boundary table or random, up to 11 pre-filled slots, optional ragged tail, short headers) x 4..18 save/load operations on slots near the data, revisited, before the origin, beyond EOF, in the offset-wrap range and random; non-trivial = the file changed and at least one save was refused; distinct by (initial bytes, operation list)"
 	return res, nil
